@@ -248,6 +248,9 @@ class CellCycleController:
         Releases all resources and cleans up.
         """
         self.release_all_resources(ctx)
+        # An operation that ends is no longer part of the wait-for relation,
+        # whether or not it held anything (it may have been blocked on its first resource)
+        self.dependency_graph.remove_all_for_agent(ctx.operation_id)
         ctx.enter_phase(Phase.G0)
 
         if ctx.operation_id in self.active_operations:
@@ -274,6 +277,9 @@ class CellCycleController:
         Releases all resources and cleans up.
         """
         self.release_all_resources(ctx)
+        # An operation that ends is no longer part of the wait-for relation,
+        # whether or not it held anything (it may have been blocked on its first resource)
+        self.dependency_graph.remove_all_for_agent(ctx.operation_id)
         ctx.enter_phase(Phase.G0)
 
         if ctx.operation_id in self.active_operations:
